@@ -146,7 +146,7 @@ func init() {
 			}
 			ps := []*harness.Phase{{
 				Name: "decoder-histories", Gate: true, Env: []string{"GODEBUG=clobberfree=1"},
-				Rule: fmt.Sprintf("all sequences of 1..%d messages of the alphabet (the longest length over every third message) x an action from {none, overwrite input, reuse buffer, gc twice, drop everything + gc + application churn, decode into the previous destination keeping a shallow copy} between steps, two forced GCs at the end; distinct by (history)", n),
+				Rule: fmt.Sprintf("all sequences of 1..%d messages of the alphabet (the longest length over every fifth message) x an action from {none, overwrite input, reuse buffer, gc twice, drop everything + gc + application churn, decode into the previous destination keeping a shallow copy} between steps, two forced GCs at the end; distinct by (history)", n),
 				Body: func(c *explore.C) { c06Body(c, n) },
 			}}
 			return append(ps, e3Phases("C06")...)
@@ -166,9 +166,9 @@ func c06Body(c *explore.C, maxLen int) {
 	al := c06Alphabet()
 	n := 1 + c.Choose(maxLen, explore.Data, "length")
 	if n == maxLen && n > 2 {
-		// the longest histories run over a reduced alphabet (every third message)
+		// the longest histories run over a reduced alphabet (every fifth message)
 		var red []c06Msg
-		for i := 0; i < len(al); i += 3 {
+		for i := 0; i < len(al); i += 5 {
 			red = append(red, al[i])
 		}
 		al = red
